@@ -694,9 +694,39 @@ def check_C04(tier):
                 if got != ref:
                     violations.append(viol(pid, r, "expression grouped differently from the declared precedence/associativity",
                                            {"input_symbol_ids": w, "verdict": f[2], "got": repr(got), "expected": repr(ref)}))
+    # (3b) the same through the COMPILED parsers of all five variants: what the user runs goes through the packed arrays,
+    # their default actions and the three driver texts, none of which the dense table of (3) shows
+    xc = [c for c in make_xcases(tier, rng, n=12 if tier == "quick" else 120) if c["kind"] == "expr" and not c["xs"].get("layered")]
+    res = x_sweep(tier, rng, xcases=xc, inputs_fn=lambda c: expr_letter_inputs(c["xs"], rng, 25 if tier == "quick" else 80))
+    ties += x_build_ties(res)
+    vnames = [v[3] for v in xrun.VARIANTS if not (v[0] == "typescript" and res["node"] is None)]
+    xexprs = 0
+    for c in res["usable"]:
+        g = c["core"].g
+        if g is None:
+            continue
+        name2id = {v["name"]: k for k, v in g.syms.items()}
+        ids = [name2id.get(t if not t.startswith("'") else "$operator" + t[1], 0) for t in c["xs"]["terms"]]
+        for w in c["inputs"]:
+            toks = [ids[ord(ch) - 97] if ord(ch) - 97 < len(ids) else 0 for ch in w]
+            ref = expr_reference(g, toks, None)
+            for vn in vnames:
+                r = xrun.impl_run(res, c, vn, w)
+                if r is None or r["verdict"] not in ("accept", "reject"):
+                    continue
+                xexprs += 1
+                if r["verdict"] == "accept":
+                    t = tree_from_reductions(g, r["log"], toks)
+                    got = shape(g, t) if t else "unparseable-log"
+                else:
+                    got = None
+                if got != ref:
+                    violations.append(xviol(pid, res, c, vn, "compiled parser groups an expression differently from the declared precedence/associativity",
+                                            {"input": w, "verdict": r["verdict"], "got": repr(got), "expected": repr(ref)}))
+    exprs += xexprs
     cov = std_cov(results, pairs + cells + exprs,
                   GEN_RULE + "; evaluations = action pairs through the real ResolveConflict + two-way conflict cells recomputed from the property's rule + whole expressions grouped against a precedence-climbing reference",
-                  samples, {"action_pairs": pairs, "two_way_cells": cells, "expressions": exprs,
+                  samples, {"action_pairs": pairs, "two_way_cells": cells, "expressions": exprs, "of_which_through_compiled_parsers_of_all_variants": xexprs,
                             "partial": ["end-to-end grouping (all operator tables x all expressions) is covered by execution against a precedence-climbing reference, the cell-level rule by theorems on the translated functions",
                                         "reduce/reduce cells where both rules carry a precedence are unspecified by the property and excluded"]})
     return common.conclude(pid, tier, "proof", proof, ties, violations, cov, [])
@@ -904,9 +934,13 @@ def check_C06(tier):
                 if r is None:
                     continue
                 if r["verdict"] == "accept":
-                    # "never by returning a result as if the input had been accepted": a result for an input
-                    # the grammar does not derive (e.g. an unknown token code taken for the end marker)
-                    if not core.g.recognizes(toks):
+                    # "never by returning a result as if the input had been accepted": a result although part of
+                    # the input was never read, or for an input the grammar does not derive (e.g. an unknown token code
+                    # taken for the end marker)
+                    if r.get("req") is not None and r["req"] != len(w) + 1:
+                        violations.append(xviol(pid, res, c, vn, "a result is returned although the input was not read to its end (no syntax error reported)",
+                                                {"input": w, "tokens_requested": r["req"], "tokens_in_input_plus_end_marker": len(w) + 1, "value": r.get("val")}))
+                    elif not core.g.recognizes(toks):
                         violations.append(xviol(pid, res, c, vn, "a result is returned for an input the grammar does not derive (no syntax error reported)",
                                                 {"input": w, "token_symbol_ids": toks, "value": r.get("val")}))
                     continue
@@ -978,6 +1012,56 @@ HAND_SPECS = [
 ]
 
 
+# operator tables with a %nonassoc level ABOVE the left/right levels (the state after `E < E` then has more reduce
+# entries than error entries, so a default reduction can swallow the error cell) and with %nonassoc lowest
+NONASSOC_SPECS = [
+    {"tokens": ["T0"], "lits": ["'+'", "'-'", "'*'", "'/'", "'<'"], "prec": [("left", ["'+'", "'-'"]), ("left", ["'*'", "'/'"]), ("nonassoc", ["'<'"])], "nts": ["E"], "start": "E",
+     "rules": [{"lhs": "E", "rhs": ["T0"], "prec": None}] + [{"lhs": "E", "rhs": ["E", "'%s'" % o, "E"], "prec": None} for o in "+-*/<"], "layered": False},
+    {"tokens": ["T0"], "lits": ["'+'", "'-'", "'*'", "'/'", "'<'", "'>'", "'('", "')'"],
+     "prec": [("nonassoc", ["'<'", "'>'"]), ("left", ["'+'", "'-'"]), ("left", ["'*'", "'/'"])], "nts": ["E"], "start": "E",
+     "rules": [{"lhs": "E", "rhs": ["T0"], "prec": None}] + [{"lhs": "E", "rhs": ["E", "'%s'" % o, "E"], "prec": None} for o in "+-*/<>"] +
+              [{"lhs": "E", "rhs": ["'('", "E", "')'"], "prec": None}], "layered": False},
+    {"tokens": ["T0"], "lits": ["'+'", "'<'", "'='"], "prec": [("left", ["'+'"]), ("nonassoc", ["'<'"]), ("right", ["'='"]) ], "nts": ["E"], "start": "E",
+     "rules": [{"lhs": "E", "rhs": ["T0"], "prec": None}, {"lhs": "E", "rhs": ["E", "'+'", "E"], "prec": None},
+               {"lhs": "E", "rhs": ["E", "'<'", "E"], "prec": None}, {"lhs": "E", "rhs": ["E", "'='", "E"], "prec": None}], "layered": False},
+]
+
+
+def expr_letter_inputs(xs, rng, n):
+    """random operator expressions over the terminals of an operator grammar, as letters (index into xs["terms"]);
+    chains of one operator (`a<a<a`) are frequent: they are where associativity and %nonassoc show"""
+    terms = xs["terms"]
+    L = lambda t: chr(97 + terms.index(t))
+    leaf = next((t for t in terms if not t.startswith("'")), None)
+    if leaf is None:
+        return []
+    ops = [r["rhs"][1] for r in xs["rules"] if len(r["rhs"]) == 3 and r["rhs"][0] == r["rhs"][2] == r["lhs"]]
+    par = next((r["rhs"] for r in xs["rules"] if len(r["rhs"]) == 3 and r["rhs"][0] != r["lhs"] and r["rhs"][1] == r["lhs"]), None)
+    un = [r["rhs"][0] for r in xs["rules"] if len(r["rhs"]) == 2 and r["rhs"][1] == r["lhs"] and r["rhs"][0] in terms]
+    if not ops:
+        return []
+    out = []
+    for _ in range(n):
+        w = []
+        def atom(d):
+            c = rng.random()
+            if un and c < 0.15 and d < 3:
+                w.append(L(un[0])); atom(d + 1)
+            elif par and c < 0.3 and d < 2:
+                w.append(L(par[0])); ex(d + 1); w.append(L(par[2]))
+            else:
+                w.append(L(leaf))
+        def ex(d):
+            atom(d)
+            chain = rng.random() < 0.4
+            o = rng.choice(ops)
+            for _ in range(rng.choice([1, 2, 2, 3, 4] if d == 0 else [0, 1, 2])):
+                w.append(L(o if chain else rng.choice(ops))); atom(d)
+        ex(0)
+        out.append("".join(w))
+    return sorted(set(out))
+
+
 def make_xcases(tier, rng, n=None):
     if n is None:
         n = 30 if tier == "quick" else 400
@@ -992,6 +1076,8 @@ def make_xcases(tier, rng, n=None):
     for i in range(max(3, n // 6)):
         sp = gen.expr_grammar(rng)
         xc.append({"id": "xe:%d" % i, "xs": xrun.xspec(sp, rng), "kind": "expr"})
+    for i, sp in enumerate(NONASSOC_SPECS):
+        xc.append({"id": "xn:%d" % i, "xs": xrun.xspec(sp, rng), "kind": "expr"})
     # alternatives with byte-identical action text but differently tagged symbols
     twin_hand = {"tokens": ["A", "B"], "lits": [], "prec": [], "nts": ["S", "I"], "start": "S",
                  "rules": [{"lhs": "S", "rhs": ["I"], "prec": None}, {"lhs": "S", "rhs": ["S", "I"], "prec": None},
@@ -1003,11 +1089,14 @@ def make_xcases(tier, rng, n=None):
     return xc
 
 
-def x_sweep(tier, rng, trace=False, n=None, variants=None):
-    xc = make_xcases(tier, rng, n)
+def x_sweep(tier, rng, trace=False, n=None, variants=None, xcases=None, inputs_fn=None):
+    xc = xcases if xcases is not None else make_xcases(tier, rng, n)
     def inputs_of(c):
+        if inputs_fn is not None:
+            return inputs_fn(c)
+        extra = expr_letter_inputs(c["xs"], rng, 12 if tier == "quick" else 40) if c.get("kind") == "expr" else []
         return gen.x_inputs(c["xs"], rng, max_len=3 if tier == "quick" else 4, n_sent=10 if tier == "quick" else 25,
-                            cap=200 if tier == "quick" else 700)
+                            cap=200 if tier == "quick" else 700) + extra
     res = xrun.run_x(xc, inputs_of, trace=trace, variants=variants or xrun.VARIANTS)
     # the same grammars through the core dump (for the Earley oracle and the conflict-free test)
     core_cases = [{"id": c["id"], "src": res["meta"]["%s|%s" % (c["id"], (variants or xrun.VARIANTS)[0][3])]["src"]} for c in res["usable"]]
@@ -1132,7 +1221,24 @@ def check_C08(tier):
                                              vn: {k: r[k] for k in ("verdict", "log", "val", "req")}}))
             if len(samples) < 3 and base["verdict"] == "accept" and len(w) >= 3:
                 samples.append({"case": c["id"], "input": w, "result": {k: base[k] for k in ("verdict", "log", "val", "req")}, "variants_agreeing": [vn for vn, _ in rs]})
-    cov = {"evaluations": nruns, "distinct_nontrivial": len(res["usable"]),
+    # the same grammar with a NESTED parse inside an action, in the global form (PushContex / ParserInit / Parser /
+    # PopContex) and in the -o form (a second context): the two forms must answer alike
+    solo = {}
+    nt, _, _ = xrun.run_c15_nested(rng, with_expected=True, solo_out=solo)
+    ties += nt
+    labs = sorted(solo)
+    nested_pairs = 0
+    if len(labs) == 2:
+        for w in sorted(solo[labs[0]]):
+            a, b = solo[labs[0]].get(w), solo[labs[1]].get(w)
+            if a is None or b is None:
+                continue
+            nested_pairs += 1
+            if a != b:
+                violations.append({"key": common.finding_key({"nested": w}),
+                                   "what": "the global form and the -o form disagree on an input (grammar with a nested parse in an action)",
+                                   "replay": {"property": pid, "input": w, labs[0]: a, labs[1]: b, "grammar_file_global_form": xrun.NESTED_Y}})
+    cov = {"evaluations": nruns, "distinct_nontrivial": len(res["usable"]), "nested_parse_inputs_compared_between_global_and_object_form": nested_pairs,
            "rule": "hand-written + random structured + operator grammars with random linear actions over two union fields; every grammar generated in the variants go, go -u, go -o, go -o -u, typescript through the generator entry points, all Go variants linked into one binary, TS under Node type stripping; inputs: all strings up to a bound incl. an unknown letter, sampled and mutated sentences; distinct = grammars for which all variants were generated",
            "samples": samples, "inputs": inputs, "variants": vnames, "ts_skipped": res["skipped_ts"],
            "programs": len(res["usable"]) * len(vnames), "disagreements_checked": len(ties) + len(violations),
@@ -1155,8 +1261,11 @@ C08_THEOREMS = ["Y.Props.C08_equiv", "Y.AD.astep_refines", "Y.AD.arun_refines",
                 # a verdict within termBound loop iterations, the verdict is stable under more fuel, and it decides the language
                 "Y.Props.C06_end_to_end_terminates_global_go", "Y.Props.C06_end_to_end_terminates_object_go",
                 "Y.Props.C06_end_to_end_decides_global_go", "Y.Props.C06_end_to_end_decides_object_go",
-                "Y.Props.goParserGlobal_mono", "Y.Props.goParserObject_mono"]
-C08_MODULES = ["Yv.Props.C08", "Yv.Props.C08b", "Yv.Props.EndToEnd", "Yv.Props.EndToEndTerm"]
+                "Y.Props.goParserGlobal_mono", "Y.Props.goParserObject_mono",
+                # the TypeScript driver text, translated on every run (Gen/TsDriver.lean), refines the array driver model
+                "C08c.step_ts_eq", "C08c.parser_ts_run", "C08c.parser_ts_eq", "C08c.parser_ts_init", "C08c.push_ts_eq", "C08c.pop_ts_eq",
+                "C08c.init_ts_eq", "C08c.load_ts_eq", "C08c.parser_ts_second", "C08c.parser_ts_reinit", "C08c.stackRel_unique", "C08c.stackRel_total"]
+C08_MODULES = ["Yv.Props.C08", "Yv.Props.C08b", "Yv.Props.EndToEnd", "Yv.Props.EndToEndTerm", "Yv.Props.C08c"]
 C08_LEVEL = "proof"
 
 
@@ -1345,6 +1454,22 @@ def check_C07(tier):
                            "replay": dict(v, property=pid)})
     vnames = [v[3] for v in xrun.VARIANTS if not (v[0] == "typescript" and res["node"] is None)]
     accepted = 0
+    # "each through the union field declared for that symbol": the field the generator attaches to every symbol must be the
+    # declared one, wherever in the declaration section the tag was given (also for grammars whose output does not compile)
+    tag_cases = 0
+    for c in res.get("all_cases", res["usable"]):
+        core = c.get("core")
+        if core is None or core.g is None:
+            continue
+        tag_cases += 1
+        for k, sy in core.g.syms.items():
+            nm = sy["name"]
+            want = c["xs"]["tags"].get(nm if not nm.startswith("$operator") else "'%s'" % nm[9:])
+            if want is not None and sy.get("tag", "") != want:
+                violations.append(xviol(pid, res, c, vnames[0],
+                                        "a symbol's values are read through another union field than the declared one",
+                                        {"symbol": nm, "declared_field": want, "field_used": sy.get("tag", "")}))
+                break
     for c in res["usable"]:
         g = c["core"].g
         if g is None:
@@ -1571,6 +1696,9 @@ def c16_spec(rng):
     sp = {"tokens": tokens, "lits": lits, "prec": prec, "nts": nts, "start": nts[0], "rules": rules}
     if rng.random() < 0.3:
         sp["nums"] = {t: 300 + 7 * i for i, t in enumerate(tokens) if rng.random() < 0.5}
+    # the value tag of some terms arrives in a later %token line of its own (after the number / the precedence line)
+    in_prec = set(x for _, ss in prec for x in ss)
+    sp["late_tags"] = [t for t in terms if rng.random() < (0.6 if t in in_prec else 0.2)]
     return sp
 
 
@@ -1581,6 +1709,15 @@ def c16_render(sp, target, pkg, rng_actions):
     for s in sp["tokens"] + sp["lits"] + sp["nts"]:
         if rng_actions.random() < 0.6:
             tags[s] = rng_actions.choice(fields)
+    # a term whose tag is declared late carries a tag, and some action reads it: its tag is the one of a rule it occurs in
+    for t in sp.get("late_tags", []):
+        users = [r for r in sp["rules"] if t in r["rhs"]]
+        if users:
+            lhs = rng_actions.choice(users)["lhs"]
+            tags[lhs] = tags.get(lhs, rng_actions.choice(fields))
+            tags[t] = tags[lhs]
+        else:
+            tags.setdefault(t, rng_actions.choice(fields))
     # a rule with ten or more symbols refers to its last symbol ($10, $11, …)
     for r in sp["rules"]:
         if len(r["rhs"]) >= 10:
@@ -1815,6 +1952,16 @@ def check_C15(tier):
     for v in nv[:3]:
         violations.append({"key": common.finding_key({"nested": v["input"], "pos": v["position_in_history"]}),
                            "what": "global parser with nested parses: after ParserInit() the result of Parser(%r) is %r, alone it is %r" % (v["input"], v["got"], v["alone"]),
+                           "replay": dict(v, property=pid)})
+    # the nested parse and the enclosing parse must not interfere either: the enclosing parse continues as if the
+    # sub-string had been parsed by a parser of its own (the independent evaluation substitutes its value)
+    nt2, nwrong, nsolo = xrun.run_c15_nested(rng, with_expected=True)
+    ties += nt2
+    evals += nsolo
+    for v in nwrong[:3]:
+        violations.append({"key": common.finding_key({"nested-interference": v["input"]}),
+                           "what": "a nested parse interferes with the enclosing one (%s): Parser(%r) gives %r, with the sub-strings parsed separately it is %r" % (
+                               v["scenario"], v["input"], v["got"], v["expected"]),
                            "replay": dict(v, property=pid)})
     cov = {"evaluations": evals, "distinct_nontrivial": len(res["usable"]) + 1,
            "rule": "a fixed grammar whose action parses a sub-string with the same global parser (PushContex/ParserInit/Parser/PopContex), history with failing nested parses vs fresh-process runs; per grammar: a shuffled history with repeats (accepted and rejected inputs mixed) on the global Go parser with ParserInit() in between, on one reused -o context with c.ParserInit() in between, on fresh contexts, on up to 16 contexts parsing concurrently (3 rounds each) under the Go race detector, and on the TypeScript parser with initialize() in between; every result must equal the pure-function result of the Lean driver model on the scraped table",
@@ -2226,7 +2373,29 @@ def check_C11(tier):
     # the const block and the translate switch as the emitters print them = the emission model's text (read-back theorems C11_emit_*)
     et, emit_n, _, _ = emit_ties([c["src"] for c in cases] + [gen.render(sp) for sp in HAND_SPECS], keys=("Const", "Translate"))
     ties += et
+    # the translation as the generated parsers PERFORM it (all five variants): an integer that is no token code — above the
+    # range, 0, a negative one other than -1 — must be an error, not the end marker or another token
+    res = x_sweep(tier, rng, n=8 if tier == "quick" else 80)
+    ties += x_build_ties(res)
+    vnames = [v[3] for v in xrun.VARIANTS if not (v[0] == "typescript" and res["node"] is None)]
+    unknown_runs = 0
+    for c in res["usable"]:
+        nterm = len(c["xs"]["terms"])
+        for w in c["inputs"]:
+            k = next((i for i, ch in enumerate(w) if ord(ch) - 97 >= nterm), None)
+            if k is None:
+                continue
+            for vn in vnames:
+                r = xrun.impl_run(res, c, vn, w)
+                if r is None or r["verdict"] == "loop":
+                    continue
+                unknown_runs += 1
+                if r["verdict"] == "accept" or (r["verdict"] == "reject" and r["req"] > k + 1):
+                    violations.append(xviol(pid, res, c, vn, "an integer that is no token code is not translated to an error by the generated parser",
+                                            {"input": w, "position_of_the_unknown_code": k, "letter": w[k], "verdict": r["verdict"], "tokens_requested": r["req"],
+                                             "codes": "v = -2, w = 0, x/y = largest token code + 2/+1, z = 9999"}))
     cov = {"evaluations": len(cases) * 3, "distinct_nontrivial": accepted, "emitted_texts_compared_with_emission_model": emit_n,
+           "runs_of_compiled_parsers_on_inputs_with_an_unknown_code": unknown_runs,
            "rule": "random declaration mixes: explicit numbers near literal codes and near the automatic range, character literals, tagged/untagged tokens, tokens declared via %token or only via %left/%right/%nonassoc or (literals) only used in rules; front end in-process + generated Go and TypeScript files scraped for the const block and the translate switch; distinct = accepted mixes",
            "samples": samples, "programs": accepted * 2, "disagreements_checked": len(ties) + len(violations), "trusted_base": TRUSTED}
     return common.conclude(pid, tier, C11_LEVEL, proof, ties[:50], violations, cov,
@@ -2364,8 +2533,25 @@ def check_C12(tier):
                                "replay": {"property": pid, "grammar_file": c["src"], "expected": exp, "got": got}})
         if len(samples) < 3 and exp is not None:
             samples.append({"grammar_file": c["src"][:300], "verdict": got})
-    cov = {"evaluations": len(cases), "distinct_nontrivial": len(set(c["src"] for c in cases)),
-           "rule": "random grammars with a planted defect (undefined symbol; nonterminal declared by %type without rule; unproductive nonterminal: self-recursive, mutually recursive, at the start symbol, deep, unreachable) or none, plus sampled exhaustive tiny grammars; the verdict (processed / refused with reason class) is compared with the property's rule computed from the abstract specification, and with the Lean front-end model",
+    # "every other well-formed grammar (below the built-in limit of 2000 parser states) is processed": a family with exactly
+    # 2N+2 states on both sides of the limit, and at the sizes where a growing array changes its capacity
+    def family(nn):
+        return ("%token " + " ".join("T%d" % i for i in range(1, nn + 1)) + "\n%start s\n%%\ns : " +
+                " | ".join("T%d T%d" % (i, i) for i in range(1, nn + 1)) + " ;\n%%\n")
+    lim_cases = [{"id": "lim%d" % nn, "src": family(nn), "states": 2 * nn + 2} for nn in (511, 767, 895, 998, 999, 1100)]
+    lrec = run_front(lim_cases)
+    near_limit = {}
+    for c in lim_cases:
+        d = digest_front(lrec[c["id"]]["impl"])
+        got = d["refuse"] if d["refuse"] else ("hang" if d["hang"] else ("syntax" if d["ast_err"] else None))
+        near_limit[str(c["states"])] = str(got)
+        if c["states"] < 2000 and got is not None:
+            violations.append({"key": common.finding_key({"states": c["states"]}), "what": "usable grammar with %d parser states (below the limit of 2000) is refused (%s)" % (c["states"], got),
+                               "replay": {"property": pid, "grammar_file": c["src"], "parser_states": c["states"], "got": got}})
+        elif c["states"] >= 2000 and got is None and not any(l.startswith("GRAMMAR") for l in lrec[c["id"]]["impl"]):
+            ties.append({"what": "no verdict read for the grammar with %d states" % c["states"]})
+    cov = {"evaluations": len(cases) + len(lim_cases), "distinct_nontrivial": len(set(c["src"] for c in cases)), "grammars_around_the_state_limit": near_limit,
+           "rule": "a family of grammars with exactly 2N+2 parser states around the limit of 2000 (1024..2202 states); random grammars with a planted defect (undefined symbol; nonterminal declared by %type without rule; unproductive nonterminal: self-recursive, mutually recursive, at the start symbol, deep, unreachable) or none, plus sampled exhaustive tiny grammars; the verdict (processed / refused with reason class) is compared with the property's rule computed from the abstract specification, and with the Lean front-end model",
            "samples": samples, "verdict_histogram": {"%s expected=%s got=%s" % k: v for k, v in sorted(hist.items())},
            "programs": len(cases), "disagreements_checked": len(ties) + len(violations), "trusted_base": TRUSTED}
     return common.conclude(pid, tier, C12_LEVEL, proof, ties[:50], violations, cov, ["explicit %start; below the 2000-state cap"])
@@ -2667,6 +2853,11 @@ C18_TEXT_KINDS = [("node header", "dot-header"), ("items shown for state", "dot-
                   ("listing transitions", "list-gotos"), ("listing lookahead sets", "list-la")]
 
 
+# literal characters that are structure characters of a DOT record label and are NOT escaped by the drawing code: a graph
+# with such a name cannot be read back (DESIGN §5 C18); `<` and `>` are escaped (EscapeDotGraph) and are in the domain
+C18_UNREADABLE = ["'|'", "'{'", "'}'", "'\"'"]
+
+
 def check_C18(tier):
     pid = "C18"
     rng = random.Random(common.seed() * 1000003 + 18)
@@ -2683,7 +2874,7 @@ def check_C18(tier):
     safe = []
     for c in cases:
         # names that contain the renderer's own separators cannot be read back (DESIGN §5 C18)
-        if any(ch in c["src"] for ch in ["'|'", "'{'", "'}'", "'\"'", "'<'", "'>'"]):
+        if any(ch in c["src"] for ch in C18_UNREADABLE):
             continue
         safe.append(c)
     inp = "".join(json.dumps({"id": c["id"], "src": c["src"]}) + "\n" for c in safe).encode()
@@ -2901,6 +3092,15 @@ def check_C19(tier):
     failures = dict(C19_FAILURES)
     big_epi = "\nfunc GetToken() {}\nvar table = []string{\n" + "".join("\t\"keyword_number_%d\",\n" % i for i in range(4000)) + "}\n// END OF EPILOGUE\n"
     failures["large input (100 KiB epilogue)"] = "%token A\n%start S\n%%\nS : A ;\n%%" + big_epi
+    # grammars of unusual but legal SHAPE that must succeed and end with their epilogue
+    epi = "\nfunc GetToken(input string, valTy *ValType, pos *int) int { return -1 }\n// the last line of the epilogue\n"
+    failures["ok: every terminal is a character literal (no named token)"] = "%{\npackage p\n%}\n%union { v int }\n%start S\n%%\nS : 'a' S 'b' | 'c' ;\n%%" + epi
+    failures["ok: literal tokens with precedence only"] = "%{\npackage p\n%}\n%union { v int }\n%left '+'\n%left '*'\n%start E\n%%\nE : E '+' E | E '*' E | 'n' ;\n%%" + epi
+    failures["ok: tokens declared by precedence lines only"] = "%{\npackage p\n%}\n%union { v int }\n%left PLUS\n%right POW\n%nonassoc N\n%start E\n%%\nE : E PLUS E | E POW E | N ;\n%%" + epi
+    failures["ok: empty language of the empty string"] = "%{\npackage p\n%}\n%union { v int }\n%token A\n%start S\n%%\nS : ;\n%%" + epi
+    failures["ok: no prologue, no union"] = "%token A\n%start S\n%%\nS : A ;\n%%" + epi
+    failures["ok: typed everything, actions everywhere"] = ("%{\npackage p\n%}\n%union { v int }\n%token <v> A\n%type <v> S T\n%start S\n%%\nS : T { $$ = $1 } | S A { $$ = $1 + $2 } ;\n"
+                                                           "T : A { $$ = $1 } ;\n%%" + epi)
     # random failing texts: prefixes / edits of valid files that the front end rejects
     texts = c13_texts(tier, rng)
     rng.shuffle(texts)
